@@ -24,13 +24,16 @@ import (
 // updated in two steps, a shared scratch buffer handed over under a mutex, a lazily built cache.
 
 type schedCase struct {
-	Kind     string  `json:"kind"` // "shard" (aggregate of one worker process) or "schedule" (one failing execution)
-	Shard    int     `json:"shard,omitempty"`
-	Summary  any     `json:"summary,omitempty"`
-	Starts   []int   `json:"starts,omitempty"`
-	Ends     []int   `json:"ends,omitempty"`
-	Progs    [][]int `json:"progs,omitempty"`
-	Schedule []int   `json:"schedule,omitempty"`
+	Kind      string  `json:"kind"` // "shard" (aggregate of one worker process) or "schedule" (one failing execution)
+	Shard     int     `json:"shard,omitempty"`
+	Summary   any     `json:"summary,omitempty"`
+	Starts    []int   `json:"starts,omitempty"`
+	Ends      []int   `json:"ends,omitempty"`
+	Starts2   []int   `json:"starts2,omitempty"`
+	Ends2     []int   `json:"ends2,omitempty"`
+	ScanFirst int     `json:"scan_first,omitempty"`
+	Progs     [][]int `json:"progs,omitempty"`
+	Schedule  []int   `json:"schedule,omitempty"`
 }
 
 type schedSummary struct {
@@ -44,12 +47,16 @@ type schedSummary struct {
 	Unstable       int      `json:"unstable"`
 	Classes        []string `json:"classes"`
 	Complete       bool     `json:"complete"`
+	Phase1         int      `json:"scenarios_completed_at_full_bound,omitempty"`
 	Violations     []struct {
 		Case struct {
-			Starts   []int   `json:"starts"`
-			Ends     []int   `json:"ends"`
-			Progs    [][]int `json:"progs"`
-			Schedule []int   `json:"schedule"`
+			Starts    []int   `json:"starts"`
+			Ends      []int   `json:"ends"`
+			Starts2   []int   `json:"starts2"`
+			Ends2     []int   `json:"ends2"`
+			ScanFirst int     `json:"scan_first"`
+			Progs     [][]int `json:"progs"`
+			Schedule  []int   `json:"schedule"`
 		} `json:"case"`
 		Fail string `json:"fail"`
 	} `json:"violations"`
@@ -130,7 +137,7 @@ func schedReplay(r *core.Run, c schedCase) core.Outcome {
 		return core.OK("harness-error", false)
 	}
 	if res.Fail != "" {
-		return core.Failf("starts %v ends %v, goroutine programs %v: %s; schedule:%s", c.Starts, c.Ends, c.Progs, res.Fail, res.Schedule)
+		return core.Failf("index 0: starts %v ends %v%s, goroutine programs %v: %s; schedule:%s", c.Starts, c.Ends, second(c.Starts2, c.Ends2), c.Progs, res.Fail, res.Schedule)
 	}
 	return core.OK(res.Class, true)
 }
@@ -138,8 +145,8 @@ func schedReplay(r *core.Run, c schedCase) core.Outcome {
 func c16Schedules(r *core.Run) {
 	bound := core.Pick(r, 2, 3)
 	m := core.Begin(r, "schedules", core.Opts{
-		Rule: "E4: regions is instrumented at build time (a scheduling point before every statement, sync.Mutex/RWMutex/Once as scheduler-visible shims); 2-3 goroutines call At on one shared index (every index of <= 2/3 intervals over {0,1,2} x every assignment of positions {0,1,2} to the goroutines' calls) and write into what they get back; EVERY schedule with at most " + fmt.Sprint(bound) + " preemptions is executed; each answer must be the brute-force answer, no panic, no deadlock, and two sequential scans afterwards must be right. One case = one worker process (shard) or one failing schedule; evals = executions; non-trivial = shards that ran preemptive schedules",
-		Bounds: fmt.Sprintf("preemption bound %d; goroutine shapes {1,1},{2,1},{1,1,1}%s; step budget 20000 per execution", bound, core.Pick(r, "", ",{2,2},{2,1,1}")),
+		Rule:   "E4: regions is instrumented at build time (a scheduling point before every statement, sync.Mutex/RWMutex/Once as scheduler-visible shims); 2-3 goroutines call At on one shared index (every index of <= 2/3 intervals over {0,1,2} x every assignment of positions {0,1,2} to the goroutines' calls), and 2 goroutines call At on TWO indexes alive at once (every ordered pair from 5/8 small indexes x every assignment of (index, position) to the calls that touches both), and write into what they get back; EVERY schedule with at most " + fmt.Sprint(bound) + " preemptions is executed; each answer must be the brute-force answer, no panic, no deadlock, and two sequential scans afterwards must be right. One case = one worker process (shard) or one failing schedule; evals = executions; non-trivial = shards that ran preemptive schedules",
+		Bounds: fmt.Sprintf("preemption bound %d on the scenarios of the quick tier (indexes of <= 2 intervals, goroutine shapes {1,1},{2,1},{1,1,1}, two-index scenarios)%s; step budget 20000 per execution", bound, core.Pick(r, "", "; then bound 2 on indexes of <= 3 intervals and the shapes {2,2},{2,1,1}")),
 	}, func(c schedCase) core.Outcome { return schedReplay(r, c) })
 	if m == nil {
 		return
@@ -158,7 +165,7 @@ func c16Schedules(r *core.Run) {
 		return
 	}
 	n := min(16, max(1, runtime.NumCPU()))
-	secs := int(core.Pick(r, 150*time.Second, 25*time.Minute).Seconds())
+	secs := int(core.Pick(r, 75*time.Second, 25*time.Minute).Seconds())
 	var wg sync.WaitGroup
 	sums := make([]schedSummary, n)
 	errs := make([]string, n)
@@ -212,8 +219,8 @@ func c16Schedules(r *core.Run) {
 		m.Record(int64(s), schedCase{Kind: "shard", Shard: s, Summary: light},
 			core.Outcome{Class: strings.Join(sm.Classes, ","), Nontrivial: sm.Preemptive > 0, Evals: max(1, sm.Executions)})
 		for k, v := range sm.Violations {
-			m.Record(int64(1000+s*10+k), schedCase{Kind: "schedule", Starts: v.Case.Starts, Ends: v.Case.Ends, Progs: v.Case.Progs, Schedule: v.Case.Schedule},
-				core.Failf("starts %v ends %v, goroutine programs %v: %s", v.Case.Starts, v.Case.Ends, v.Case.Progs, v.Fail))
+			m.Record(int64(1000+s*10+k), schedCase{Kind: "schedule", Starts: v.Case.Starts, Ends: v.Case.Ends, Starts2: v.Case.Starts2, Ends2: v.Case.Ends2, ScanFirst: v.Case.ScanFirst, Progs: v.Case.Progs, Schedule: v.Case.Schedule},
+				core.Failf("index 0: starts %v ends %v%s, goroutine programs %v (a call p asks position p%%10 of index p/10): %s", v.Case.Starts, v.Case.Ends, second(v.Case.Starts2, v.Case.Ends2), v.Case.Progs, v.Fail))
 		}
 	}
 	r.Extra("schedules_executed", execs)
@@ -224,4 +231,11 @@ func c16Schedules(r *core.Run) {
 	r.Extra("schedule_points_instrumented", len(res.Sites))
 	r.Extra("schedule_sync_shims", res.SyncShims)
 	m.End(0, 0)
+}
+
+func second(s, e []int) string {
+	if s == nil {
+		return ""
+	}
+	return fmt.Sprintf("; index 1: starts %v ends %v", s, e)
 }
